@@ -6,3 +6,4 @@ from . import c_loader      # noqa
 from . import c_read        # noqa
 from . import c_header      # noqa
 from . import c_cropping    # noqa
+from . import c_accessors   # noqa
